@@ -968,7 +968,14 @@ class API:
             gapic.schema.api.MethodSettingsError: if the method settings do not
                 meet the requirements of https://google.aip.dev/client-libraries/4235.
         """
-        self.enforce_valid_method_settings(
+        # The settings name methods of the whole API: validate them against the
+        # whole API, not against the services of a subpackage view alone.
+        whole_api = (
+            dataclasses.replace(self, subpackage_view=())
+            if self.subpackage_view
+            else self
+        )
+        whole_api.enforce_valid_method_settings(
             self.service_yaml_config.publishing.method_settings
         )
 
